@@ -23,7 +23,11 @@ TECHNIQUE = ("explicit-state enumeration of boot-call histories (depth 3; "
              "packer and fresh-state differential oracle")
 RULE = ("alphabet: no options, each board preset, arbitrary overrides "
         "(non-zero and zero values), options through an explicit sv_overrides "
-        "dict, through MachineController.boot; images: bundled and synthetic "
+        "dict, through MachineController.boot, dictionary refined by keywords "
+        "of the same call, spare configuration words, caller's struct file "
+        "(decimal offsets, other defaults), one datagram refused by the "
+        "operating system; definitions returned by earlier boots re-read "
+        "after later ones; images: bundled and synthetic "
         "{4,1020,1024,1028,2048,32764} bytes. Every sequence of <=3 calls; "
         "state = hidden option state (shared defaults) + call index; "
         "non-trivial: sequences of >=2 calls")
